@@ -5,6 +5,8 @@ package core
 import (
 	"encoding/json"
 	"fmt"
+	"math/big"
+	"os"
 	"strings"
 	"testing"
 
@@ -82,8 +84,14 @@ type c02TreeState struct {
 	quotas []*c02Quota // parent before child
 	byName map[string]*c02Quota
 	total  [2]int64
-	hi     int64
-	log    []string
+	// totalSeen: the cluster total has been non-zero at least once. Until then koordinator's
+	// totalResourceExceptSystemAndDefaultUsed is an empty list (updateClusterTotalResourceNoLock only stores a
+	// changed value), and getScaledMinQuota only looks at dimensions that are keys of the total it is given, so
+	// on a cluster that never had any resource nothing is scaled. That degenerate start-up state is left out of
+	// the scaling rule (counted as a class, mentioned in the report).
+	totalSeen bool
+	hi        int64
+	log       []string
 }
 
 func (st *c02TreeState) children(parent string) []*c02Quota {
@@ -128,7 +136,7 @@ func TestVerifC02Tree(t *testing.T) {
 		c := rec.Begin()
 		defer c.End()
 
-		scaleMin := rapid.Bool().Draw(t, "scaleMinQuotaEnabled")
+		scaleMin := rapid.IntRange(0, 2).Draw(t, "scaleMinQuotaEnabled") != 0
 		guaranteeUsage := rapid.IntRange(0, 3).Draw(t, "guaranteeUsage") == 0
 		if guaranteeUsage {
 			gate := k8sfeature.DefaultFeatureGate.(featuregate.MutableFeatureGate)
@@ -160,7 +168,14 @@ func TestVerifC02Tree(t *testing.T) {
 					if parent == nil {
 						q.Min[d] = c02Val(t, hi, l+"Min")
 					} else {
-						q.Min[d] = c02Val(t, budget[d], l+"Min")
+						switch rapid.IntRange(0, 3).Draw(t, l+"MinMode") {
+						case 0: // everything that is left of the parent's min
+							q.Min[d] = budget[d]
+						case 1: // at least half of it
+							q.Min[d] = budget[d]/2 + c02Val(t, budget[d]-budget[d]/2, l+"MinUpperHalf")
+						default:
+							q.Min[d] = c02Val(t, budget[d], l+"Min")
+						}
 						budget[d] -= q.Min[d]
 					}
 					q.Max[d] = q.Min[d] + c02Val(t, hi-q.Min[d], l+"MaxAbove")
@@ -173,7 +188,7 @@ func TestVerifC02Tree(t *testing.T) {
 				}
 				st.quotas = append(st.quotas, q)
 				st.byName[q.Name] = q
-				if depth < 3 && rapid.IntRange(0, 2).Draw(t, l+"IsParent") == 0 {
+				if depth < 3 && rapid.IntRange(0, 5).Draw(t, l+"IsParent") < 5-2*depth { // 1/2 at the first level, 1/6 at the second
 					q.IsParent = true
 					addLevel(q, depth+1, rapid.IntRange(1, 3).Draw(t, l+"Kids"))
 				}
@@ -198,7 +213,14 @@ func TestVerifC02Tree(t *testing.T) {
 					sumMin += q.Min[d]
 					sumMax += q.Max[d]
 				}
-				switch rapid.IntRange(0, 5).Draw(t, label+"Mode") {
+				modes := []int{0, 1, 2, 3, 4, 5, 6, 6}
+				if scaleMin {
+					modes = append(modes, 6, 6)
+				}
+				switch rapid.SampledFrom(modes).Draw(t, label+"Mode") {
+				case 6: // moderately below the sum of the first-level minimums: first-level parents compete, their runtimes
+					// fall below their own minimums and so (possibly) below the sum of their children's minimums
+					nt[d] = sumMin - c02Val(t, sumMin/2, label+"UpperHalfBelowMin")
 				case 0:
 					nt[d] = c02Val(t, sumMin, label+"BelowMin")
 				case 1:
@@ -216,6 +238,9 @@ func TestVerifC02Tree(t *testing.T) {
 				corev1.ResourceMemory: *resource.NewQuantity(nt[1]-st.total[1], resource.BinarySI),
 			}
 			gqm.UpdateClusterTotalResource(delta)
+			if nt != st.total {
+				st.totalSeen = true
+			}
 			st.total = nt
 			st.logf("total=%v", nt)
 		}
@@ -426,6 +451,65 @@ func TestVerifC02Tree(t *testing.T) {
 					c.ClassIf(sibs[i].Min != k.Min[d], "auto-scaled-min-differs-from-min")
 					c.ClassIf(sibs[i].Guar > sibs[i].Min, "guarantee-above-min")
 				}
+				// ---- independent statement of the min-scaling rule (scale_minquota_when_over_root_res.go)
+				modelMins := make([]int64, len(kids))
+				for i, k := range kids {
+					modelMins[i] = k.Min[d]
+				}
+				ruleTotal := total
+				if pn == extension.RootQuotaName {
+					ruleTotal = st.total[d] // no pods in the default/system quota: the first level divides the cluster total
+				}
+				ruleOn := scaleMin
+				if pn == extension.RootQuotaName && !st.totalSeen {
+					ruleOn = false
+					c.ClassIf(scaleMin, "cluster-total-never-set(first-level scaling not asserted)")
+				}
+				expMin, tolMin, scaling := c02ScaledMins(ruleOn, ruleTotal, modelMins)
+				c.ClassIf(scaling, "min-scaling-needed")
+				c.ClassIf(scaling && pn != extension.RootQuotaName, "min-scaling-needed-below-first-level")
+				c.ClassIf(scaling && pn != extension.RootQuotaName && c02SumFits(modelMins, st.total[d]), "min-scaling-below-first-level:parent-runtime<sum-child-mins<=cluster-total")
+				for i, k := range kids {
+					got := sibs[i].Min
+					diff := new(big.Int).Abs(new(big.Int).Sub(big.NewInt(got), expMin[i]))
+					// VERIF_C02_SKIP_SCALERULE=1 is a development switch: it silences this clause so that the consequence clause
+					// below can be shown to catch a wrong scaling on its own
+					if diff.Cmp(tolMin[i]) > 0 && os.Getenv("VERIF_C02_SKIP_SCALERULE") == "" {
+						sig := "tree:scaled-min-wrong-at-first-level"
+						switch {
+						case !ruleOn:
+							sig = "tree:min-scaled-although-scaling-disabled"
+						case pn != extension.RootQuotaName:
+							sig = "tree:scaled-min-not-relative-to-parent-runtime"
+						}
+						if c.Violation(t, sig, "child %s of %s, dimension %d: AutoScaleMin used by the manager is %d, the scaling rule gives %v (+-%v): parent total T=%d, children's mins %v (sum %v), scaleMin=%v; history=%q",
+							k.Name, pn, d, got, expMin[i], tolMin[i], ruleTotal, modelMins, c02SumBig(modelMins), scaleMin, st.log) {
+							return
+						}
+					}
+				}
+				if scaling {
+					// the consequence in the statement's own terms: the scaled minimums (and guarantees) fit, so the
+					// children together must not get more than their parent has (slack = float tolerance of the rule)
+					need, slack, sumRT := new(big.Int), new(big.Int), new(big.Int)
+					for i := range kids {
+						e := expMin[i]
+						if g := big.NewInt(sibs[i].Guar); g.Cmp(e) > 0 {
+							e = g
+						}
+						need.Add(need, e)
+						slack.Add(slack, tolMin[i])
+						sumRT.Add(sumRT, big.NewInt(rt[i]))
+					}
+					T := big.NewInt(ruleTotal)
+					if need.Cmp(T) <= 0 && sumRT.Cmp(new(big.Int).Add(T, slack)) > 0 {
+						if c.Violation(t, "tree:children-exceed-parent-although-scaled-minimums-fit", "children of %s, dimension %d: scaled minimums %v fit into T=%d but sum(runtime)=%v; %s; history=%q",
+							pn, d, expMin, ruleTotal, sumRT, c02Describe(sibs, total, rt), st.log) {
+							return
+						}
+					}
+				}
+
 				sh := c02ShapeOf(sibs, total)
 				if c02Classify(c, sibs, total, sh) {
 					nt = true
@@ -483,3 +567,48 @@ func TestVerifC02Tree(t *testing.T) {
 		c.Sample(map[string]any{"scaleMin": scaleMin, "guaranteeUsage": guaranteeUsage, "history": st.log, "levels": levels})
 	})
 }
+
+// c02ScaledMins is the harness's own statement of the min-scaling rule documented in
+// scale_minquota_when_over_root_res.go: a parent with total T (its own runtime; the cluster total at the first
+// level) whose children's minimums sum to more than T scales every child's minimum to
+// floor(max(T,0) * min_i / sum(min)); otherwise, or when scaling is disabled, every child keeps its minimum.
+// (The per-child "scale enabled" flag is always the manager's one flag — scaleMinQuotaManager.update is only
+// ever called with gqm.scaleMinQuotaEnabled, which is fixed at construction — so the "disabled children keep
+// their min first" branch of the rule is unreachable through GroupQuotaManager and sum_disabled is 0.)
+// Tolerance: koordinator evaluates T*min/sum in float64. While T*min < 2^53 that is exact after truncation
+// (the product is exact, the quotient correctly rounded, and a non-integer quotient is at least 1/sum away from
+// an integer, which is more than its rounding error); beyond, allow 1 unit + 2^-50 relative.
+func c02ScaledMins(enabled bool, T int64, mins []int64) (exp []*big.Int, tol []*big.Int, scaling bool) {
+	S := c02SumBig(mins)
+	exp = make([]*big.Int, len(mins))
+	tol = make([]*big.Int, len(mins))
+	scaling = enabled && big.NewInt(T).Cmp(S) < 0
+	two53 := new(big.Int).Lsh(big.NewInt(1), 53)
+	for i, m := range mins {
+		tol[i] = new(big.Int)
+		if !scaling {
+			exp[i] = big.NewInt(m)
+			continue
+		}
+		if T <= 0 {
+			exp[i] = new(big.Int)
+			continue
+		}
+		prod := new(big.Int).Mul(big.NewInt(T), big.NewInt(m))
+		exp[i] = new(big.Int).Quo(prod, S)
+		if prod.Cmp(two53) >= 0 {
+			tol[i] = new(big.Int).Add(big.NewInt(2), new(big.Int).Rsh(exp[i], 50))
+		}
+	}
+	return exp, tol, scaling
+}
+
+func c02SumBig(xs []int64) *big.Int {
+	s := new(big.Int)
+	for _, x := range xs {
+		s.Add(s, big.NewInt(x))
+	}
+	return s
+}
+
+func c02SumFits(xs []int64, total int64) bool { return c02SumBig(xs).Cmp(big.NewInt(total)) <= 0 }
